@@ -13,6 +13,15 @@ PROPS = {
     "C02": P(2, "exploration",
              quick=dict(checks=1200, timeout=900),
              thorough=dict(checks=6000, shards=12, timeout=3000, race=True)),
+    "C03": P(3, "fault_enumeration",
+             quick=dict(checks=60, timeout=900, shrinktime="15s"),
+             thorough=dict(checks=250, shards=12, timeout=3000, shrinktime="30s")),
+    "C04": P(4, "fault_enumeration",
+             quick=dict(checks=70, timeout=900, shrinktime="15s"),
+             thorough=dict(checks=300, shards=12, timeout=3000, shrinktime="30s")),
+    "C05": P(5, "fault_enumeration",
+             quick=dict(checks=60, timeout=900, shrinktime="15s"),
+             thorough=dict(checks=300, shards=12, timeout=3000, shrinktime="30s")),
     "C09": P(9, "exploration",
              quick=dict(checks=6000, timeout=600),
              thorough=dict(checks=60000, shards=8, timeout=1800, fuzz=[("FuzzC09", 180)])),
